@@ -64,6 +64,10 @@ def parseMsg (kind : String) (a : List String) : Option Msg :=
   | "seize" => do pure (.seize (← n 0))
   | "settle" => do pure (.settle (← n 0))
   | "settle1" => do pure (.settle1 (← n 0))
+  | "esmVault" => do pure (.esmVault (← n 0))
+  | "esmStable" => do pure (.esmStable (← n 0))
+  | "esmCollector" => do pure (.esmCollector (← n 0) (← n 1) (← z 2))
+  | "esmBurn" => do pure (.esmBurn (← n 0) (← n 1) (← n 2) (← z 3))
   | _ => none
 
 def parseProduct (f : List String) : Option Product :=
@@ -88,6 +92,7 @@ structure Proj where
   ns : Nat
   bal : List (Nat × Nat × Int)
   sup : List (Nat × Int)
+  rd : List (Nat × Nat × Int) := []   -- app, denom, debt registered for emergency redemption (x/esm AssetToAmount)
 
 def items (s : String) : List (List String) :=
   if s = "" then [] else (s.splitOn ",").map (·.splitOn ":")
@@ -119,8 +124,11 @@ def parseProj (f : List String) : Option Proj := do
   let sup ← (items (← g "sup")).mapM fun
     | [d, x] => do pure ((← parseNat? d), (← parseInt? x))
     | _ => none
+  let rd ← (items ((g "rd").getD "")).mapM fun
+    | [a, d, x] => do pure ((← parseNat? a), (← parseNat? d), (← parseInt? x))
+    | _ => none
   pure { vaults, stables, locked, maps, len := ← g "len" >>= parseInt?, nv := ← g "nv" >>= parseNat?,
-         ns := ← g "ns" >>= parseNat?, bal, sup }
+         ns := ← g "ns" >>= parseNat?, bal, sup, rd }
 
 /-- the real state as a model `State` (ghost fields are carried over from the model run) -/
 def Proj.toState (p : Proj) (ghost : State) : State :=
@@ -131,7 +139,8 @@ def Proj.toState (p : Proj) (ghost : State) : State :=
     minted := fun pr => match p.maps.find? (fun x => x.1 = pr) with | some x => x.2.2.1 | none => 0,
     vaultIds := fun pr => match p.maps.find? (fun x => x.1 = pr) with | some x => x.2.2.2 | none => [],
     nextVault := p.nv, nextStable := p.ns, length := p.len,
-    unsolicited := ghost.unsolicited, extSupply := ghost.extSupply }
+    unsolicited := ghost.unsolicited, extSupply := ghost.extSupply,
+    redeem := fun a d => match p.rd.find? (fun x => x.1 = a ∧ x.2.1 = d) with | some x => x.2.2 | none => ghost.redeem a d }
 
 def overlay (l : List (Nat × Nat × Int)) (f : Nat → Nat → Int) : Nat → Nat → Int := fun a d =>
   match l.find? (fun x => x.1 = a ∧ x.2.1 = d) with
@@ -162,7 +171,9 @@ def compare (cfgL : List Product) (m : State) (p : Proj) : List String :=
     if m.bal a d = x then none else some s!"bal {a}/{d}: model={m.bal a d} impl={x}"
   let c8 := p.sup.filterMap fun (d, x) =>
     if m.supply d = x then none else some s!"supply {d}: model={m.supply d} impl={x}"
-  c1 ++ c2 ++ c3 ++ c4 ++ c5 ++ c6 ++ c7 ++ c8
+  let c9 := p.rd.filterMap fun (a, d, x) =>
+    if m.redeem a d = x then none else some s!"registered for redemption app {a} denom {d}: model={m.redeem a d} impl={x}"
+  c1 ++ c2 ++ c3 ++ c4 ++ c5 ++ c6 ++ c7 ++ c8 ++ c9
 
 /-- the gaps of the invariant equations on the REAL state (all zero when the invariants hold) -/
 def gaps (cfgL : List Product) (r : State) : List (String × String × Int) :=
@@ -275,12 +286,17 @@ def handle (st : St) (seq : String) (f : List String) : St × List String :=
         else (st', [])
     | _, _ => (st, [s!"BAD\t{seq}\tcannot parse msg/env"])
   | kind :: rest =>
-    if kind ≠ "vault.state" ∧ kind ≠ "vault.state.settle" ∧ kind ≠ "vault.state.bid" ∧ kind ≠ "vault.state.settle1" then
+    if kind ≠ "vault.state" ∧ kind ≠ "vault.state.settle" ∧ kind ≠ "vault.state.bid" ∧ kind ≠ "vault.state.settle1" ∧
+       kind ≠ "vault.state.esm" ∧ kind ≠ "vault.state.esmstable" ∧ kind ≠ "vault.state.esmburn" then
       (st, [s!"BAD\t{seq}\tunknown vault line"]) else
     -- `.settle`: the state after a second-generation auction closed; `.bid`: after a partial auction fill (only bidder /
     -- auction-module coins move); `.settle1`: after a FIRST-generation auction closed (burns the principal exactly, so the
     -- supply monitor stays strict there)
-    let isSettle := kind = "vault.state.settle" || kind = "vault.state.bid" || kind = "vault.state.settle1"
+    -- `.esm` / `.esmstable`: after the emergency-shutdown begin-blocker (the second kind when a stable-mint vault was
+    -- redeemed: finding D29 lives on those lines only); `.esmburn`: after a holder's redemption (collateral paid out of the
+    -- esm account by share is not vault custody: balances adopted)
+    let isSettle := kind = "vault.state.settle" || kind = "vault.state.bid" || kind = "vault.state.settle1" ||
+                    kind = "vault.state.esmburn"
     let lenientSupply := kind = "vault.state.settle" || kind = "vault.state.bid"
     match parseProj rest with
     | none => (st, [s!"BAD\t{seq}\tcannot parse state"])
